@@ -155,6 +155,41 @@ fn separate(stream: SeqIter<Result<InternalValue, Error>>, table_writer: &mut Ta
     Ok(())
 }
 //@ WRAPPER_END
+//@ WRAPPER_BEGIN
+/// wrapper (generated) around the loop of Tree::flush_to_tables (the standard tree writes the flushed stream as it is)
+fn write_all(stream: SeqIter<Result<InternalValue, Error>>, table_writer: &mut TableWriter) -> (r: Result<(), Error>)
+    ensures r is Ok ==> ({
+        let n = stream.rest().len() as int; let t0 = old(table_writer).items; let t1 = final(table_writer).items;
+        // every stream entry is an Ok entry and was written exactly once, unchanged, in order; a stream error aborts the flush
+        &&& t1.len() == t0.len() + n && t1.subrange(0, t0.len() as int) == t0
+        &&& forall|i: int| 0 <= i < n ==> (#[trigger] stream.rest()[i]) is Ok && t1[t0.len() + i] == stream.rest()[i]->Ok_0
+    }),
+{
+    let mut stream = stream;
+//@ FROM src/tree/mod.rs :: impl AbstractTree for Tree :: fn flush_to_tables :: STMTS `for item in stream {` .. `for item in stream {` :: OBL C12.27, C01.31
+//@ SUBST `for item in stream {` ==> `loop { let Some(item) = stream.next() else { break; };`
+    /*+*/let ghost s0 = stream.rest(); let ghost t0 = table_writer.items; let ghost mut c: int = 0;
+    proof { assert(s0.skip(0) =~= s0); assert(t0.subrange(0, t0.len() as int) =~= t0); }/*-*/
+    loop
+        /*+*/invariant 0 <= c <= s0.len(), stream.rest() == s0.skip(c),
+            table_writer.items.len() == t0.len() + c, table_writer.items.subrange(0, t0.len() as int) == t0,
+            forall|i: int| 0 <= i < c ==> (#[trigger] s0[i]) is Ok && table_writer.items[t0.len() + i] == s0[i]->Ok_0,
+        ensures c == s0.len(),
+        decreases s0.len() - c/*-*/
+    { let Some(item) = stream.next() else { break; };
+        /*+*/proof { assert(s0.skip(c)[0] == s0[c]); assert(s0.skip(c).skip(1) =~= s0.skip(c + 1)); }
+        let ghost ti = table_writer.items;/*-*/
+        table_writer.write(item?)?;
+        /*+*/proof {
+            assert(table_writer.items.subrange(0, t0.len() as int) =~= ti.subrange(0, t0.len() as int));
+            assert forall|i: int| 0 <= i < c implies (#[trigger] s0[i]) is Ok && table_writer.items[t0.len() + i] == s0[i]->Ok_0 by { assert(table_writer.items[t0.len() + i] == ti[t0.len() + i]); }
+            c = c + 1;
+        }/*-*/
+    }
+//@ END
+    Ok(())
+}
+//@ WRAPPER_END
 /// one more entry written: what was established for the earlier ones still holds
 proof fn lemma_step(t0: Seq<InternalValue>, ti: Seq<InternalValue>, tn: Seq<InternalValue>, s0: Seq<Result<InternalValue, Error>>, c: int, bi: Seq<(ValueHandle, Rec)>, bn: Seq<(ValueHandle, Rec)>)
     requires 0 <= c < s0.len(), ti.len() == t0.len() + c, ti.subrange(0, t0.len() as int) == t0, tn.len() == ti.len() + 1, tn.drop_last() == ti,
